@@ -356,3 +356,31 @@ pub fn external_producer(items: usize, consumers: usize) -> u64 {
 pub fn external_producer_expected(items: usize) -> u64 {
     (0..items).map(|i| work(i as u64, 7) & 0xff).sum()
 }
+
+/// Plain `std::thread::spawn` + `JoinHandle::join` from inside a parallel loop, with a lock shared
+/// between the spawned threads and the pool's workers.
+pub fn spawn_join_inside(tasks: usize) -> u64 {
+    let shared = Arc::new(Mutex::new(0u64));
+    (0..tasks).into_par_iter().for_each(|t| {
+        let s2 = shared.clone();
+        let h = std::thread::spawn(move || {
+            let w = work(t as u64, 10) & 0xf;
+            let mut g = s2.lock().unwrap();
+            *g += w;
+            w
+        });
+        {
+            let mut g = shared.lock().unwrap();
+            *g += 1;
+        }
+        let w = h.join().unwrap();
+        let mut g = shared.lock().unwrap();
+        *g += w;
+    });
+    let g = shared.lock().unwrap();
+    *g
+}
+
+pub fn spawn_join_inside_expected(tasks: usize) -> u64 {
+    (0..tasks).map(|t| 1 + 2 * (work(t as u64, 10) & 0xf)).sum()
+}
